@@ -40,7 +40,8 @@ pub fn chunk_bytes(idx: u8) -> Vec<u8> {
         2 => b"z".to_vec(),
         3 => (0..2000usize).map(|i| b'a' + (i % 23) as u8).collect(),
         4 => (0..12_000usize).map(|i| b'A' + (i % 19) as u8).collect(),
-        _ => (0..70_000usize).map(|i| b'0' + (i % 7) as u8).collect(),
+        5 => (0..70_000usize).map(|i| b'0' + (i % 7) as u8).collect(),
+        _ => vec![b'V'; 15_000_000],
     }
 }
 
@@ -550,6 +551,26 @@ pub fn scale_lifecycle() -> Vec<(String, Vec<Action>)> {
             h.push(ex(id2, Bind::Reuse));
             v.push((format!("a statement of {} parameters bound, closed; {} re-prepared with {} parameters, bound with other types, reused", n1, if same_id { "the same id" } else { "another id" }, n2), h));
         }
+    }
+    v
+}
+
+/// a large volume of long data that is discarded by re-preparing the still-open id (never
+/// executed, never closed), then ordinary use: nothing may have been counted against the client
+pub fn scale_volume() -> Vec<(String, Vec<Action>)> {
+    let mut v = Vec::new();
+    for rounds in [8usize] {
+        let mut h = vec![Action::Prepare { id: 1, n: 1, ok: true }, Action::Prepare { id: 2, n: 2, ok: true }];
+        for _ in 0..rounds {
+            h.push(Action::Long { id: 1, param: 0, chunk: 6 });
+            h.push(Action::Prepare { id: 1, n: 1, ok: true });
+        }
+        h.push(Action::Long { id: 2, param: 1, chunk: 1 });
+        h.push(ex(2, Bind::C));
+        h.push(Action::Long { id: 1, param: 0, chunk: 2 });
+        h.push(ex(1, Bind::C));
+        h.push(Action::Close { id: 1 });
+        v.push((format!("{} x 15 MB of long data discarded by re-preparing the open id, then small long data and executions", rounds), h));
     }
     v
 }
